@@ -349,3 +349,98 @@ func postC19Keys(rc *RunCtx, res *simrt.Result) {
 		rc.Nontrivial = true
 	}
 }
+
+// c19main: the shared components as the server itself assembles them. A
+// configuration in which services (and legacy ports) have keys in common is
+// loaded through the real main path; clients authenticate on all of its TCP and
+// UDP listeners at once, with a reload in between in a third of the runs. Only
+// the race detector judges (the functional oracles of this run shape are C09's
+// and C10's).
+func init() {
+	Register(&Scenario{Name: "c19main", Prop: "C19", MaxSteps: 400000, Run: runC19Main})
+}
+
+func runC19Main(rc *RunCtx) {
+	quiet(rc)
+	G := rc.G
+	U := genKeys(G, 2+G.Draw(2), "")
+	mk := func() *mCfg {
+		c := &mCfg{}
+		nS := 2 + G.Draw(2)
+		port := 9000
+		for s := 0; s < nS; s++ {
+			var sv mSvc
+			for l, nL := 0, 1+G.Draw(2); l < nL; l++ {
+				sv.Listeners = append(sv.Listeners, mLn{[]string{"tcp", "udp"}[G.Draw(2)], fmt.Sprintf("127.0.0.1:%d", port)})
+				port++
+			}
+			// every service has the first key; the others are drawn
+			sv.Keys = append(sv.Keys, U[0])
+			for _, k := range U[1:] {
+				if G.Draw(2) == 0 {
+					sv.Keys = append(sv.Keys, k)
+				}
+			}
+			c.Services = append(c.Services, sv)
+		}
+		if G.Draw(2) == 0 {
+			for _, p := range []int{9100, 9101}[:1+G.Draw(2)] {
+				c.Legacy = append(c.Legacy, mLegacy{p, U[0]})
+				if G.Draw(2) == 0 {
+					c.Legacy = append(c.Legacy, mLegacy{p, U[len(U)-1]})
+				}
+			}
+		}
+		return c
+	}
+	cfg := mk()
+	ms, err := newMainSim(rc, []int{0, 100}[G.Draw(2)], cfg)
+	if err != nil {
+		return
+	}
+	owners := cfg.owners()
+	nT := 2 + G.Draw(5)
+	done := make([]flag, nT)
+	for t := 0; t < nT; t++ {
+		t := t
+		type shot struct {
+			o mOwner
+			k *Key
+		}
+		var shots []shot
+		for i, n := 0, 1+G.Draw(3); i < n; i++ {
+			o := owners[G.Draw(len(owners))]
+			if len(o.keys) == 0 {
+				continue
+			}
+			shots = append(shots, shot{o, o.keys[G.Draw(len(o.keys))]})
+		}
+		j := jitter(G)
+		simrt.GoNamed(fmt.Sprintf("c19main-client-%d", t), func() {
+			j()
+			for _, s := range shots {
+				if s.o.ln.Type == "tcp" {
+					ms.probeTCP(s.o.ln.Addr, s.k, nil)
+				} else {
+					ms.probeUDP(s.o.ln.Addr, s.k)
+				}
+			}
+			done[t].Set()
+		})
+	}
+	if G.Draw(3) == 0 {
+		// (from this task, which also stops the server: as in the program, where the
+		// signal loop of main is the only caller of both)
+		next := mk()
+		jitter(G)()
+		ms.reload(next, false)
+		simrt.Probe("reload_during_concurrent_authentication")
+	}
+	for t := range done {
+		done[t].Wait()
+	}
+	rc.Nontrivial = true
+	ms.Srv.StopForVerif()
+	simrt.Quiesce()
+	rc.Phase = "done"
+}
